@@ -4,10 +4,12 @@ package main
 // (abstract operation + projected observation) for validation by Trace_AttrSet.tla.
 
 import (
+	"encoding/json"
 	"flag"
 	"fmt"
 	"math/rand"
 	"sort"
+	"strconv"
 	"strings"
 
 	"go.opentelemetry.io/otel/attribute"
@@ -92,6 +94,15 @@ func valText(v AVal) string {
 			panic("no authored escape for " + v.X[0])
 		}
 		return e
+	}
+	return concreteValue(v.T, v.X, 0).Emit()
+}
+
+// text Set.MarshalLog must report for a value: Value.Emit() of the free-standing value (the
+// string itself for STRING).
+func rawText(v AVal) string {
+	if v.T == "str" {
+		return v.X[0]
 	}
 	return concreteValue(v.T, v.X, 0).Emit()
 }
@@ -415,9 +426,110 @@ func (s *scen) obsWith(src int, set *attribute.Set) {
 			ghost = true
 		}
 	}
+	mj := s.marshalJSON(set)
+	if mj["err"].(bool) {
+		s.res.Count("marshal_json_refused", 1)
+	} else {
+		s.res.Count("marshal_json_decoded", 1)
+	}
 	s.emit(map[string]any{"ev": "Obs", "src": src, "obs": map[string]any{
 		"slice": s.km.abstractAll(set.ToSlice()), "len": o.Len, "iter": o.Iter, "look": o.Look, "get": o.Get, "ghost": ghost,
-		"enc": set.Encoded(attribute.DefaultEncoder()), "selfEq": o.SelfEq}})
+		"enc": set.Encoded(attribute.DefaultEncoder()), "selfEq": o.SelfEq,
+		"mlog": s.marshalLog(set), "mjson": mj}})
+}
+
+// marshalLog projects Set.MarshalLog() (key -> Value.Emit() text) as [rank, text] pairs by rank.
+func (s *scen) marshalLog(set *attribute.Set) []map[string]any {
+	out := []map[string]any{}
+	m, ok := set.MarshalLog().(map[string]string)
+	if !ok {
+		return append(out, map[string]any{"k": -2, "v": "MarshalLog did not return map[string]string"})
+	}
+	for k, v := range m {
+		r, known := s.km.rank[k]
+		if !known {
+			r = -1
+		}
+		out = append(out, map[string]any{"k": r, "v": v})
+	}
+	sort.Slice(out, func(i, j int) bool { return out[i]["k"].(int) < out[j]["k"].(int) })
+	return out
+}
+
+// marshalJSON decodes Set.MarshalJSON() back into abstract attributes (err: it returned an error).
+func (s *scen) marshalJSON(set *attribute.Set) map[string]any {
+	fail := func(why string) map[string]any {
+		return map[string]any{"err": false, "attrs": []AAttr{{K: -2, T: why, X: []string{}}}}
+	}
+	b, err := set.MarshalJSON()
+	if err != nil {
+		return map[string]any{"err": true, "attrs": []AAttr{}}
+	}
+	var kvs []struct {
+		Key   string
+		Value struct {
+			Type  string
+			Value json.RawMessage
+		}
+	}
+	if err := json.Unmarshal(b, &kvs); err != nil {
+		return fail("undecodable JSON: " + err.Error())
+	}
+	tmap := map[string]string{"BOOL": "bool", "INT64": "i64", "FLOAT64": "f64", "STRING": "str",
+		"BOOLSLICE": "bools", "INT64SLICE": "i64s", "FLOAT64SLICE": "f64s", "STRINGSLICE": "strs"}
+	attrs := []AAttr{}
+	for _, kv := range kvs {
+		t, ok := tmap[kv.Value.Type]
+		if !ok {
+			return fail("unknown type " + kv.Value.Type)
+		}
+		a := AAttr{K: -1, T: t, X: []string{}}
+		if r, known := s.km.rank[kv.Key]; known {
+			a.K = r
+		}
+		var raws []json.RawMessage
+		if strings.HasSuffix(t, "s") {
+			if err := json.Unmarshal(kv.Value.Value, &raws); err != nil {
+				return fail("slice value is not a JSON array")
+			}
+		} else {
+			raws = []json.RawMessage{kv.Value.Value}
+		}
+		for _, raw := range raws {
+			switch t {
+			case "bool", "bools":
+				var v bool
+				if json.Unmarshal(raw, &v) != nil {
+					return fail("not a bool")
+				}
+				a.X = append(a.X, map[bool]string{true: "T", false: "F"}[v])
+			case "i64", "i64s":
+				var n json.Number
+				if json.Unmarshal(raw, &n) != nil {
+					return fail("not a number")
+				}
+				a.X = append(a.X, n.String())
+			case "f64", "f64s":
+				var n json.Number
+				if json.Unmarshal(raw, &n) != nil {
+					return fail("not a number")
+				}
+				f, err := strconv.ParseFloat(n.String(), 64)
+				if err != nil {
+					return fail("not a float")
+				}
+				a.X = append(a.X, fToAtom(f))
+			default:
+				var v string
+				if json.Unmarshal(raw, &v) != nil {
+					return fail("not a string")
+				}
+				a.X = append(a.X, v)
+			}
+		}
+		attrs = append(attrs, a)
+	}
+	return map[string]any{"err": false, "attrs": attrs}
 }
 
 func (s *scen) encWith(src int, set *attribute.Set) {
@@ -626,14 +738,14 @@ func newScen(r *rand.Rand, sc, K int, big bool, extra []AVal, nregs int, tw *vh.
 		v := genVal(r, big)
 		if k := valKey(v.T, v.X); !seen[k] {
 			seen[k] = true
-			v.E = valText(v)
+			v.E, v.R = valText(v), rawText(v)
 			s.pool = append(s.pool, v)
 		}
 	}
 	for _, v := range extra {
 		if k := valKey(v.T, v.X); !seen[k] {
 			seen[k] = true
-			v.E = valText(v)
+			v.E, v.R = valText(v), rawText(v)
 			s.pool = append(s.pool, v)
 		}
 	}
